@@ -80,6 +80,15 @@ CHECKS = {
     note="Trusted: TLC; fontTools otTables decompiler; direction classification recomputed from Unicode Script + GSUB closure.",
     technique="TLA+ statement of GDEF/caret/cursive expectations evaluated by TLC on compiled tables; exhaustive TLC check of the split rule",
     design="5 C18"),
+ "C19": dict(
+    text="VarModel.tla states the single-axis variation model (piecewise linear between adjacent masters) on exact integers and "
+         "TLC checks master reproduction / betweenness / two-master linearity exhaustively; every generated instance "
+         "(Instantiator.generate_instance at master and non-master locations, rounding on/off, rules) is validated by TLC: "
+         "glyph set, every coordinate / offset / anchor / advance / kerning / info value equals the blend, swapped references, "
+         "code points untouched, plus observations sources-untouched, repeatable, order-independent, swap involution.",
+    note="Trusted: TLC; fontTools varLib / fontMath as environment (kerning rounds halves away from zero there); exact dyadic families.",
+    technique="TLA+ variation-model spec; TLC exhaustive check + TLC validation of instances generated by the real Instantiator",
+    design="5 C19"),
  "C20": dict(
     text="Layout.tla models feaLib's registration semantics and the kern writer's explicit registration; TLC proves C20 holds "
          "exactly outside the known-finding signature (and a strict config must fail); LayoutTrace.tla evaluates the "
